@@ -5,27 +5,33 @@ import vlib
 PID = "C14"
 
 
-def sig_of(e):
+def sig_of(e, o):
     c = e["c"]
-    return "case=%s|%s|req%d|gr%d%s|%s|skew%d|allow%d|opts=%s:status=%s,ran=%s" % (
-        c["hdr"], c["ver"], len(c["req"]), len(c["granted"]), "dup" if c.get("dup") else "", c["exp"], c["skew"], int(c["allow"]), c["opts"],
-        e["o"]["status"], int(e["o"]["ran"]))
+    return "case=%s|%s|req%d%s|gr%d%s|%s|skew=%s|allow%d|url=%s|opts=%s:status=%s,ran=%s" % (
+        c["hdr"], c["ver"], len(c["req"]), "" if c["rform"] == "exact" else c["rform"],
+        len(c["granted"]), "" if c["gform"] == "exact" else c["gform"], c["exp"], c["skew"], int(c["allow"]), c["url"], c["opts"],
+        o["status"], int(o["ran"]))
 
 
 def run(tier, seed, replay):
     v = vlib.Verdict(PID, tier, seed)
     v.assumptions = ["time.Now is frozen by testing/synctest so the expiry boundary is exact",
-                     "header shapes are concretised with seeded whitespace/case variants"]
+                     "every value class (header shape, expiration and skew magnitude, scope-list form, URL form) is concretised "
+                     "with seeded representatives; the harness checks each expiration/skew representative against its class "
+                     "in exact integer arithmetic",
+                     "the WWW-Authenticate challenge is read with the harness's RFC 9110 auth-param / quoted-string parser"]
     out = vlib.outdir(PID)
     wd = vlib.scratch("tlc-")
     res = vlib.run_tlc("Bearer", "Bearer.cfg", workdir=wd, workers=1, timeout=600)
     vlib.tlc_must_pass(res, "Bearer")
     if not res.ok:
         raise vlib.MachineryError("Bearer design check failed: " + (res.violation or res.stdout[-2000:]))
-    ncases = [p["cases"] for p in res.printed if isinstance(p, dict) and "cases" in p][0]
+    parts = [p for p in res.printed if isinstance(p, dict) and "cases" in p][0]
+    ncases = parts["cases"]
     v.add_tlc("Bearer(design: Holds(c, Expected(c)) for all cases)", res)
     v.cov["states"] = ncases  # the decision table has one "state" per abstract case
     v.cov["transitions"] = ncases
+    v.cov["case_parts"] = parts
     cases = os.path.join(out, "cases.ndjson")
     if replay:
         rep = json.load(open(replay))
@@ -33,33 +39,46 @@ def run(tier, seed, replay):
     else:
         os.replace(os.path.join(wd, "cases.ndjson"), cases)
     obs = os.path.join(out, "obs.ndjson")
-    reps = 1 if tier == "quick" else 4
+    # representatives per case: the core product / the slices (whose classes have many more kinds of representatives)
+    reps, reps_slice = (1, 3) if tier == "quick" else (4, 24)
+    if replay:
+        reps = reps_slice = 50  # a replayed abstract case is concretised again: draw many representatives of its classes
     rc, gout, wall = vlib.go_test("auth", "^TestVerif_C14$", ["auth/c14_bearer_test.go"],
-                                  env={"VERIF_IN": cases, "VERIF_OUT": obs, "VERIF_SEED": seed, "VERIF_REPS": reps})
+                                  env={"VERIF_IN": cases, "VERIF_OUT": obs, "VERIF_SEED": seed, "VERIF_REPS": reps,
+                                       "VERIF_REPS_SLICE": reps_slice})
     vlib.go_must_build(rc, gout, PID)
     if rc != 0:
+        if "representative" in gout and "panic:" in gout:
+            raise vlib.MachineryError("C14 harness drew a representative outside its class:\n" + gout[-3000:])
         if "panic:" in gout:
             v.violation("panic", "middleware panicked", {"output": gout[-3000:]})
             return v.finish()
         raise vlib.MachineryError("C14 harness failed:\n" + gout[-3000:])
     rows = vlib.read_ndjson(obs)
-    # every case is presented twice to one middleware instance (second time with the same cached TokenInfo)
-    if not replay and len(rows) != ncases * reps * 2:
-        raise vlib.MachineryError("harness ran %d of %d cases" % (len(rows), ncases * reps * 2))
+    # one line per (case, representative); every line holds the two presentations to one middleware instance
+    want = parts["core"] * reps + (ncases - parts["core"]) * reps_slice
+    if not replay and len(rows) != want:
+        raise vlib.MachineryError("harness wrote %d of %d lines" % (len(rows), want))
     fails, mres = vlib.run_monitor("BearerMon", "BearerMon.cfg", obs)
     v.add_tlc("BearerMon", mres)
-    v.cov["traces_validated_against_impl"] = len(rows)
-    v.cov["evaluations"] = len(rows)
+    v.cov["traces_validated_against_impl"] = 2 * len(rows)
+    v.cov["evaluations"] = 2 * len(rows)
     v.cov["distinct_nontrivial"] = len({json.dumps(r["c"], sort_keys=True) for r in rows if r["c"]["hdr"] != "absent"})
-    v.cov["rule"] = "complete product enumerated by TLC (Bearer!CaseSet); non-trivial = an Authorization header is present"
+    v.cov["rule"] = ("complete union of products enumerated by TLC (Bearer!CaseParts: core product + time, header, scope-list and "
+                     "challenge slices); non-trivial = an Authorization header is present; every case is run on %d (core) / %d (slices) "
+                     "seeded representative(s), each presented twice" % (reps, reps_slice))
     v.cov["exhaustive"] = not replay
-    v.cov["admitted"] = sum(1 for r in rows if r["o"]["ran"])
+    v.cov["admitted"] = sum(int(r["o1"]["ran"]) + int(r["o2"]["ran"]) for r in rows)
     for r in rows[:: max(1, len(rows) // 5)][:5]:
         v.sample(r)
     for f in fails:
         e = rows[f["line"] - 1]
-        if f["monfail"] == "drift":
-            v.drift.append("outcome differs from Bearer!Expected: " + sig_of(e))
+        name, _, nth = f["monfail"].partition("#")
+        o = e["o2"] if nth == "2" else e["o1"]
+        if name == "drift":
+            v.drift.append("outcome differs from Bearer!Expected: " + sig_of(e, o) + (" (second presentation)" if nth else ""))
         else:
-            v.violation("%s:%s" % (f["monfail"], sig_of(e)), "real middleware outcome violates %s" % f["monfail"], e)
+            v.violation("%s:%s" % (name, sig_of(e, o)),
+                        "real middleware outcome violates %s%s; representative: %s" % (name, " on the second presentation" if nth else "", e.get("x", "")),
+                        e)
     return v.finish()
